@@ -43,7 +43,7 @@ func init() {
 		Run:      run,
 		RlimitAS: 4 << 30,
 		Floors: func(t string) map[string]int64 {
-			return map[string]int64{"wkb.truncated": 1000, "wkb.bitflip": 1000, "wkb.count_inflated": 1000, "wkb.bad_type": 500, "wkb.bad_order": 500, "wkb.deep_nesting": 5, "wkb.random": 500,
+			return map[string]int64{"wkb.truncated": 1000, "wkb.bitflip": 1000, "wkb.count_inflated": 1000, "wkb.bad_type": 500, "wkb.bad_order": 500, "wkb.deep_nesting": 5, "wkb.random": 500, "wkb.long_count_bitflip": 1000, "wkb.long_count_wrapped": 500,
 				"hex.malformed": 200, "json.grammar": 1000, "json.handbuilt": 200, "decoded.ok.refixpoint": 1000, "json.deep": 3}
 		},
 	})
@@ -433,6 +433,51 @@ func (e *env) wkbSpecial(r *gen.R) {
 		}
 		e.c.Max("wkb.nesting_levels", float64(levels))
 		e.tryWKB("deep_nesting", b)
+	}
+	// long point lists (>= 256 points really present): every single-bit flip of every count
+	// field and counts of the form k*2^28 + c (a wrapped size check may accept them)
+	{
+		n := []int{256, 257, 300, 512, 600}[r.Intn(5)]
+		pts := make([]geom.Point, n)
+		for i := range pts {
+			pts[i] = geom.Point{X: float64(i), Y: float64(-i)}
+		}
+		var g geom.Geom = geom.LineString(pts)
+		if r.Bool() {
+			g = geom.Polygon{pts[:n-3], pts[n-3:]}
+		}
+		if r.Chance(0.3) {
+			g = geom.GeometryCollection{geom.MultiLineString{pts}}
+		}
+		seed, _ := refcodec.WKB(g, func() bool { return r.Bool() })
+		_, fields, _, _ := refcodec.ParseWKB(seed)
+		e.tryWKB("valid", seed)
+		for _, f := range fields {
+			if f.Kind != refcodec.FCount {
+				continue
+			}
+			for bit := 0; bit < 32; bit++ {
+				m := append([]byte{}, seed...)
+				putU32(m, f.Off, f.LE, f.Val^(1<<uint(bit)))
+				e.tryWKB("long_count_bitflip", m)
+			}
+			for k := uint32(1); k <= 15; k += uint32(r.IntRange(1, 4)) {
+				for _, cc := range []uint32{f.Val, 256, f.Val - 1, 1, 0} {
+					m := append([]byte{}, seed...)
+					putU32(m, f.Off, f.LE, k<<28+cc)
+					e.tryWKB("long_count_wrapped", m)
+				}
+			}
+		}
+		// the same through hex
+		m := append([]byte{}, seed...)
+		for _, f := range fields {
+			if f.Kind == refcodec.FCount && f.Val >= 256 {
+				putU32(m, f.Off, f.LE, f.Val+1<<28)
+				break
+			}
+		}
+		e.tryHex("count_inflated", enchex.EncodeToString(m))
 	}
 	// wide: many tiny members announced and present
 	{
